@@ -33,6 +33,14 @@ Correspondence.  For every generated (schema version, document):
      continues on a copy of the context: finding C04-F5, whose repair is emulated in-process for the rest of the
      evaluation);  comment / PI nodes inserted into 9 % of all documents and run on the source kinds that keep them
      (lxml, ElementTree with insert_comments) and that drop them (findings C04-F6 / C04-F7).
+  7. nested namespace declarations.  Family Q (harness/lib_c04q.py): key / unique / keyref over xs:QName attributes,
+     QName element content and lists of QNames, in documents where the prefix of the value is re-bound on the last
+     child, a middle child, the last descendant, the selected element itself, a sibling (every field x every
+     place, then random); every family: 10 % of the documents again with 1-3 declarations of prefixes that the
+     subtree does not use added to inner elements.  All run on every source kind that carries declarations
+     (ElementTree sources only when the document has no prefix-dependent value).  In the two recorded runs the
+     prefix map in force when `collect_key_fields` is entered is compared, element by element, with the in-scope
+     declarations of that element (lxml): the tie of ns_scope_at_element_end for validation AND decoding.
 
 Property evaluation on the real code (independent of Lean): all verdicts of a case are equal,
 strict raises the first lax error, lax/skip never raise, data of valid documents are equal for all
@@ -75,7 +83,10 @@ RULE = ('a case is one (XSD version, schema family, generated document); documen
         '(processContents strict/lax/skip, ##other) with 0-2 attributes and 0-3 child elements from 8 + 15 item classes '
         '(declared valid/invalid, not found, unavailable namespace, not admitted, xsi:type), all items acceptable for '
         'their carrier except 0-3; family I (1.1): inheritable attribute on 0-3 levels x 9 error positions; 9 % of all '
-        'documents again with one comment / PI node inserted; every case is '
+        'documents again with one comment / PI node inserted; family Q: 2-3 items with a QName-valued identity field '
+        '(attribute, element, list; key / unique / keyref) x 8 places where the prefix of the value is re-bound x same / '
+        'other namespace x same / other local name; 10 % of all documents again with 1-3 unused-prefix declarations '
+        'added to inner elements; every case is '
         'run through all entry points x modes x source kinds; non-trivial = the document is invalid, or valid with '
         'more than 3 decoded items; distinct by canonical JSON of (version, family, XML text, path, use_defaults)')
 TRUSTED = [
@@ -91,6 +102,8 @@ TRUSTED = [
     'raw_decode with a context built as ValidationMixin.iter_decode builds it (the component API rejects a pair source)',
     'finding C04-F5 is matched by running the same document with ValidationContext.__copy__ replaced in-process by a '
     'version that shares `errors` and `id_map`; findings C04-F6/F7 by running the same tree without its comment / PI nodes',
+    'the prefix map at the end of an element is observed by wrapping XsdElement.collect_key_fields during the two '
+    'recorded runs; the call pattern of set_xmlns_context (NsMapper.visit) is tied to the code by the C17 check',
 ]
 ASSUMPTIONS = [
     'fully loaded (non-lazy) resources, no max_depth / hooks arguments (lazy resources are property C06); the path '
@@ -1435,7 +1448,7 @@ def gen_cases(ctx: Ctx, n: int) -> list[dict]:
                 if c['faults']:
                     break
             vcases.append(c)
-    for _ in range(max(8, n // 2)):
+    for _ in range(max(8, ctx.pick(n // 3, n // 2))):
         c = GV.gen_case_V(ctx.rng, ctx.rng.random() < 0.5)
         # the dimension of this family is orthogonal to the source kind: 60 % of the random cases use 4-5 source kinds
         if ctx.rng.random() < 0.6:
@@ -1447,7 +1460,7 @@ def gen_cases(ctx: Ctx, n: int) -> list[dict]:
     for i, c in enumerate(GW.small_scope(ctx.rng, False)):
         if i % 2:
             c['v'] = '1.1'
-        if ctx.quick() and ctx.rng.random() < 0.7:
+        if ctx.quick() and ctx.rng.random() < 0.85:
             c['lite'] = True
         wcases.append(c)
     for _ in range(max(8, n // 5)):
@@ -1469,7 +1482,7 @@ def gen_cases(ctx: Ctx, n: int) -> list[dict]:
     # run on the source kinds that keep such nodes and on those that drop them
     cmcases = []
     for c in cases + vcases + wcases + icases:
-        if ctx.rng.random() < 0.09:
+        if ctx.rng.random() < ctx.pick(0.07, 0.09):
             xml, where = insert_comment(ctx.rng, c['xml'])
             d = dict(c, xml=xml, cm=where)
             d.pop('lite', None)
@@ -1480,7 +1493,7 @@ def gen_cases(ctx: Ctx, n: int) -> list[dict]:
     for _ in range(max(8, n // 5)):
         qcases.append(GQ.gen_case_Q(ctx.rng, ctx.rng.random() < 0.5))
     for c in qcases:
-        if ctx.rng.random() < 0.7:
+        if ctx.rng.random() < ctx.pick(0.85, 0.7):
             c['lite'] = True
     # nested namespace declarations in every family: 1-3 declarations of prefixes that the subtree does not use are added
     # to inner elements (the document means the same); sources that carry declarations must still agree
